@@ -1,5 +1,6 @@
 import Toq.Driver.QJson
 import Toq.Model.Discrim
+import Toq.Model.DiscrimArgs
 /-! Driver front end for C10 (state discrimination certificate checkers).
 
 Ops (matrices in the `QJson` dyadic encoding, rationals as `[num, den]` or an integer):
@@ -8,6 +9,12 @@ Ops (matrices in the `QJson` dyadic encoding, rationals as `[num, den]` or an in
 * `minerr_dual   {"d":d,"rho":[mat…],"p":[rat…],"Y":mat,"LY":[mat…]}`
 * `unamb_primal  {"k":k,"G":mat,"p":[rat…],"q":[rat…],"L":mat}`
 * `unamb_dual    {"k":k,"G":mat,"p":[rat…],"Z":mat,"LZ":mat}`
+* `sd_front {"shapes":[[n]|[r,c]…],"p":[rat…]|null,"strategy":str|null,"primal_dual":str|null}` – the lines of
+  `state_distinguishability` before the worker call (`null` = argument omitted): `{"reject":"ValueError"}` or
+  `{"n","dim","p","form"}`
+* `sd_program {"d","states":[{"vec":mat}|{"dm":mat}…],"p":[rat…]|null,"form":"me_primal"|"me_dual"|"ua_primal"|"ua_dual", point…}`
+  – the program built for the raw arguments, evaluated at a point (see `hProgram`)
+* `sd_post {"v":rat}` – `is_distinguishable`'s test on the solver value
 
 Answer `{"ok":[num,den]}` (the exact objective value returned by the verified checker) or
 `{"reject":"<first failed condition>"}`.  The verdict is always the one of the verified checker of
@@ -114,8 +121,115 @@ def hUnambDual : Handler := fun j => do
         | some i => s!"Z[{i},{i}]_below_p[{i}]"
         | none => "rejected"
 
+/-! ## The program `state_distinguishability` builds from its raw arguments -/
+
+/-- exact rational matrix as `{"re":[[num,den]…],"im":[[num,den]…]}` (row-major) -/
+def ematJson {n m : Nat} (A : EMat n m) : Json :=
+  let cells := (List.finRange n).flatMap fun i => (List.finRange m).map fun c => A.get i c
+  Json.mkObj [("re", Json.arr (cells.map fun z => ratJson z.re).toArray),
+    ("im", Json.arr (cells.map fun z => ratJson z.im).toArray)]
+
+def parseShape (j : Json) : Except String SdShape := do
+  match ← asNatList j with
+  | [n] => return .d1 n
+  | [r, c] => return .d2 r c
+  | _ => throw "shape: expected [n] or [r, c]"
+
+def optStr (j : Json) (key dflt : String) : Except String String :=
+  if isNull j key then pure dflt else do (← j.getObjVal? key).getStr?
+
+/-- `sd_front`: everything `state_distinguishability` decides before it calls one of its four workers -/
+def hFront : Handler := fun j => do
+  let shapes ← (← (← j.getObjVal? "shapes").getArr?).toList.mapM parseShape
+  let probs ← if isNull j "p" then pure none else (some <$> getRatList j "p")
+  let strategy ← optStr j "strategy" sdDefaultStrategy
+  let pd ← optStr j "primal_dual" sdDefaultPrimalDual
+  match sdFront shapes probs strategy pd with
+  | none => return reject "ValueError"
+  | some f =>
+    return Json.mkObj [("n", Json.num f.n), ("dim", Json.num f.dim),
+      ("p", Json.arr (f.probs.map ratJson).toArray), ("form", Json.str f.form.name),
+      ("solver", Json.str sdDefaultSolver)]
+
+def parseSdState (d : Nat) (j : Json) : Except String (SdState d) := do
+  match j.getObjVal? "vec" with
+  | .ok v => return .vec (← parseEMat d 1 v)
+  | .error _ => return .dm (← parseEMat d d (← j.getObjVal? "dm"))
+
+def optEMatList (j : Json) (key : String) (n m : Nat) : Except String (List (EMat n m)) :=
+  if isNull j key then pure [] else getEMatList j key n m
+
+def optEMat (j : Json) (key : String) (n m : Nat) : Except String (EMat n m) :=
+  if isNull j key then pure EMat.zero else getEMat j key n m
+
+def checkJson (r : Option Rat) : Json :=
+  match r with
+  | some v => Json.mkObj [("ok", ratJson v)]
+  | none => reject "rejected"
+
+/-- `sd_program`: the program `state_distinguishability` builds for the given raw arguments (`sdPrepare` / `sdGram`),
+evaluated at a point: every operator that a constraint requires to be PSD (`psd`, in the order of the code's constraints),
+every matrix residual that must vanish (`eq`), every number that must be non-negative (`ge`; for `ua_primal` these are the
+variable's own lower bounds `q_i ≥ 0`), the objective, and – when PSD witnesses are supplied – the verdict of the verified
+checker at that point. -/
+def hProgram : Handler := fun j => do
+  let d ← getNat j "d"
+  let sts ← (← (← j.getObjVal? "states").getArr?).toList.mapM (parseSdState d)
+  let probs ← if isNull j "p" then pure none else (some <$> getRatList j "p")
+  let form ← (← j.getObjVal? "form").getStr?
+  let ens := sdPrepare sts probs
+  let k := ens.size
+  let ρ : Fin k → EMat d d := fun i => ens.state i
+  let pr : Fin k → Rat := fun i => ens.prob i
+  let idx := List.finRange k
+  let mats {a b : Nat} (l : List (EMat a b)) : Json := Json.arr (l.map ematJson).toArray
+  let rats (l : List Rat) : Json := Json.arr (l.map ratJson).toArray
+  let base : List (String × Json) := [("p", rats ens.probs)]
+  match form with
+  | "me_primal" =>
+    let M ← getEMatList j "M" d d
+    let LM ← optEMatList j "LM" d d
+    let Mf : Fin k → EMat d d := fun i => matAt M i
+    return Json.mkObj (base ++ [("rho", mats ens.states), ("psd", mats (idx.map Mf)),
+      ("eq", mats [mePrimalEqResidual k Mf]), ("ge", rats []), ("objective", ratJson (minErrValue ens M)),
+      ("check", checkJson (checkMinErrPrimal ens M LM))])
+  | "me_dual" =>
+    let Y ← getEMat j "Y" d d
+    let LY ← optEMatList j "LY" d d
+    return Json.mkObj (base ++ [("rho", mats ens.states), ("psd", mats (idx.map fun i => meDualSlack ρ pr Y i)),
+      ("eq", mats ([] : List (EMat d d))), ("ge", rats []), ("objective", ratJson Y.trace.re),
+      ("check", checkJson (checkMinErrDual ens Y LY))])
+  | "ua_primal" =>
+    if !sts.all SdState.isVec then return reject "unambiguous_needs_vectors" else
+    let n := sts.length
+    let G := sdGram sts
+    let q ← getRatList j "q"
+    let L ← optEMat j "L" n n
+    let qf : Fin n → Rat := fun i => ratAt q i
+    return Json.mkObj (base ++ [("gram", ematJson G), ("psd", mats [uaPrimalSlack G qf]),
+      ("eq", mats ([] : List (EMat n n))), ("ge", rats ((List.finRange n).map qf)),
+      ("objective", ratJson (unambValueFn n (fun i => ratAt ens.probs i) qf)),
+      ("check", checkJson (checkUnambPrimal G ens.probs q L))])
+  | "ua_dual" =>
+    if !sts.all SdState.isVec then return reject "unambiguous_needs_vectors" else
+    let n := sts.length
+    let G := sdGram sts
+    let Z ← getEMat j "Z" n n
+    let LZ ← optEMat j "LZ" n n
+    return Json.mkObj (base ++ [("gram", ematJson G), ("psd", mats [Z]), ("eq", mats ([] : List (EMat n n))),
+      ("ge", rats ((List.finRange n).map fun i => uaDualDiagSlack (fun i => ratAt ens.probs i) Z i)),
+      ("objective", ratJson (G.mul Z).trace.re), ("check", checkJson (checkUnambDual G ens.probs Z LZ))])
+  | _ => return reject "unknown_form"
+
+/-- `sd_post`: `is_distinguishable`'s `np.isclose(opt_val, 1)` -/
+def hPost : Handler := fun j => do
+  let v ← getRat j "v"
+  return Json.mkObj [("dist", Json.bool (sdDistTest v)), ("strategy", Json.str sdDefaultStrategy),
+    ("primal_dual", Json.str "dual")]
+
 def handlers : List (String × Handler) :=
   [("minerr_primal", hMinErrPrimal), ("minerr_dual", hMinErrDual),
-   ("unamb_primal", hUnambPrimal), ("unamb_dual", hUnambDual)]
+   ("unamb_primal", hUnambPrimal), ("unamb_dual", hUnambDual),
+   ("sd_front", hFront), ("sd_program", hProgram), ("sd_post", hPost)]
 
 end Toq.Driver.C10
